@@ -139,7 +139,8 @@ def module_case(arg):
                 diffs.append((key, "a bound of the size", "%s but the size is %s" % (bound, sz)))
             if diffs:
                 diffs, exc = observe.reconcile(m, s.name, cppsuite.pdict(s, params), data, diffs,
-                                               common.case_rng(arg["seed"], "c01-completion-" + cid, arg["idx"]))
+                                               common.case_rng(arg["seed"], "c01-completion-" + cid, arg["idx"]),
+                                               actual=results[cid])
                 out["known_beyond_strict_confirmed_by_completions"] = out.get("known_beyond_strict_confirmed_by_completions", 0) + exc
             sig = (arg["idx"], si, model.get("ok"), model.get("complete"),
                    tuple(v for k, v in sorted(model.items()) if k.endswith(".has")))
@@ -281,7 +282,7 @@ def replay(path):
             diffs = observe.compare(model, res["r"])
             if diffs:
                 diffs, _exc = observe.reconcile(m, s.name, cppsuite.pdict(s, rp["params"]), data[:L], diffs,
-                                                common.case_rng(0, "c01-completion", L))
+                                                common.case_rng(0, "c01-completion", L), actual=res["r"])
             if diffs:
                 bad += 1
                 print("len %d: %s" % (L, diffs[:6]))
